@@ -888,9 +888,18 @@ type fwdEnv struct {
 	topic string
 }
 
-func newFwd(cfgTopic string, ack bool, mws ...message.HandlerMiddleware) (*fwdEnv, error) {
+// ownRouter: the Forwarder is given a Router by the caller (Config.Router) instead of making its own
+func newFwd(cfgTopic string, ack bool, ownRouter bool) (*fwdEnv, error) {
 	e := &fwdEnv{sub: newChanSub(), pub: &recPub{}, done: make(chan error, 1)}
-	f, err := forwarder.NewForwarder(e.sub, e.pub, logger, forwarder.Config{ForwarderTopic: cfgTopic, AckWhenCannotUnwrap: ack, CloseTimeout: 10 * time.Second, Middlewares: mws})
+	cfg := forwarder.Config{ForwarderTopic: cfgTopic, AckWhenCannotUnwrap: ack, CloseTimeout: 10 * time.Second}
+	if ownRouter {
+		r, err := message.NewRouter(message.RouterConfig{CloseTimeout: 10 * time.Second}, logger)
+		if err != nil {
+			return nil, err
+		}
+		cfg.Router = r
+	}
+	f, err := forwarder.NewForwarder(e.sub, e.pub, logger, cfg)
 	if err != nil {
 		return nil, err
 	}
@@ -929,16 +938,22 @@ func (e *fwdEnv) run(payload []byte, fail bool, rng *wh.Rng) string {
 
 func fwdCases(out *wh.Out, rng *wh.Rng, rounds int) {
 	for _, cfgTopic := range []string{"", "fwd-" + rndBytes(rng, 4)} {
-		env, err := newFwd(cfgTopic, false)
-		if err != nil {
-			fatal("forwarder setup", err)
+		for _, own := range []bool{false, true} {
+			env, err := newFwd(cfgTopic, false, own)
+			if err != nil {
+				fatal("forwarder setup", err)
+			}
+			req := "fwdtopic " + wh.HexS(cfgTopic)
+			if own {
+				req += " r"
+			}
+			out.Case(req, wh.HexS(env.topic))
+			env.close()
 		}
-		out.Case("fwdtopic "+wh.HexS(cfgTopic), wh.HexS(env.topic))
-		env.close()
 	}
 	for _, ackCfg := range [][2]string{{"0", ""}, {"1", ""}, {"0", "fwd-" + strconv.Itoa(rng.Intn(1000))}, {"1", "chain"}} {
 		ack, cfgTopic := ackCfg[0] == "1", ackCfg[1]
-		env, err := newFwd(cfgTopic, ack)
+		env, err := newFwd(cfgTopic, ack, false)
 		if err != nil {
 			fatal("forwarder setup", err)
 		}
@@ -1062,7 +1077,76 @@ func msgsToken(ds []msgDesc) string {
 	return strings.Join(p, ";")
 }
 
+// renderFpub: C<n>[:<topic>|<k>|<dest>~<uuid>~<payload>~<meta>+…;…] E:<err> U:<fresh envelope uuids>
+func renderFpub(calls []pubCall, err error) string {
+	var cs []string
+	fresh := true
+	seen := map[string]bool{}
+	for _, c := range calls {
+		var es []string
+		for _, m := range c.msgs {
+			v, ok := decodeEnvelope(m.payload)
+			if !ok {
+				es = append(es, "undecodable")
+				continue
+			}
+			es = append(es, wh.HexS(v.dest)+"~"+wh.HexS(v.uuid)+"~"+wh.Hex(v.payload)+"~"+wh.Meta(v.meta))
+			if m.uuid == "" || seen[m.uuid] || len(m.meta) != 0 {
+				fresh = false
+			}
+			seen[m.uuid] = true
+		}
+		e := "-"
+		if len(es) > 0 {
+			e = strings.Join(es, "+")
+		}
+		cs = append(cs, wh.HexS(c.topic)+"|"+strconv.Itoa(len(c.msgs))+"|"+e)
+	}
+	obs := "C" + strconv.Itoa(len(calls))
+	if len(cs) > 0 {
+		obs += ":" + strings.Join(cs, ";")
+	}
+	return obs + " E:" + bit(err != nil) + " U:" + bit(fresh)
+}
+
+// runFpubr: the caller keeps ONE batch (a slice of its own messages) and hands it to the Publisher twice - to a second
+// destination topic, or again after the first attempt failed. Both calls must envelope the caller's messages.
+func runFpubr(cfgTopic, topic1, topic2 string, ds []msgDesc, fail1, fail2 bool) string {
+	var ms []*message.Message
+	for _, d := range ds {
+		ms = append(ms, d.build())
+	}
+	inner := &recPub{}
+	p := forwarder.NewPublisher(inner, forwarder.PublisherConfig{ForwarderTopic: cfgTopic})
+	inner.reset(nil, fail1)
+	err1 := p.Publish(topic1, ms...)
+	o1 := renderFpub(inner.take(), err1)
+	inner.reset(nil, fail2)
+	err2 := p.Publish(topic2, ms...)
+	return o1 + " " + renderFpub(inner.take(), err2)
+}
+
 func fpubCases(out *wh.Out, rng *wh.Rng, n int) {
+	for i := 0; i < n/3; i++ {
+		cfgTopic := ""
+		if rng.Intn(2) == 0 {
+			cfgTopic = "ft-" + rndUtf8(rng, 4)
+		}
+		topic1 := "dst-" + rndUtf8(rng, 5)
+		topic2 := topic1 // a retry …
+		fail1 := true
+		if rng.Intn(2) == 0 { // … or the same batch to a second destination
+			topic2, fail1 = "other-"+rndUtf8(rng, 5), rng.Intn(4) == 0
+		}
+		var ds []msgDesc
+		for j, k := 0, 1+rng.Intn(3); j < k; j++ {
+			ds = append(ds, rndMsg(rng, rndUtf8))
+		}
+		fail2 := rng.Intn(5) == 0
+		out.Case("fpubr "+wh.HexS(cfgTopic)+" "+wh.HexS(topic1)+" "+wh.HexS(topic2)+" "+msgsToken(ds)+" "+dest(fail1)+" "+dest(fail2),
+			runFpubr(cfgTopic, topic1, topic2, ds, fail1, fail2))
+		out.Count("fpub.batch_reused")
+	}
 	for i := 0; i < n; i++ {
 		cfgTopic := ""
 		if rng.Intn(2) == 0 {
@@ -1085,35 +1169,7 @@ func fpubCases(out *wh.Out, rng *wh.Rng, n int) {
 		inner.reset(nil, fail)
 		p := forwarder.NewPublisher(inner, forwarder.PublisherConfig{ForwarderTopic: cfgTopic})
 		err := p.Publish(topic, ms...)
-		calls := inner.take()
-		var cs []string
-		fresh := true
-		seen := map[string]bool{}
-		for _, c := range calls {
-			var es []string
-			for _, m := range c.msgs {
-				v, ok := decodeEnvelope(m.payload)
-				if !ok {
-					es = append(es, "undecodable")
-					continue
-				}
-				es = append(es, wh.HexS(v.dest)+"~"+wh.HexS(v.uuid)+"~"+wh.Hex(v.payload)+"~"+wh.Meta(v.meta))
-				if m.uuid == "" || seen[m.uuid] || len(m.meta) != 0 {
-					fresh = false
-				}
-				seen[m.uuid] = true
-			}
-			e := "-"
-			if len(es) > 0 {
-				e = strings.Join(es, "+")
-			}
-			cs = append(cs, wh.HexS(c.topic)+"|"+strconv.Itoa(len(c.msgs))+"|"+e)
-		}
-		obs := "C" + strconv.Itoa(len(calls))
-		if len(cs) > 0 {
-			obs += ":" + strings.Join(cs, ";")
-		}
-		obs += " E:" + bit(err != nil) + " U:" + bit(fresh)
+		obs := renderFpub(inner.take(), err)
 		out.Case("fpub "+wh.HexS(cfgTopic)+" "+wh.HexS(topic)+" "+msgsToken(ds)+" "+dest(fail), obs)
 		out.Count("fpub.batch" + strconv.Itoa(k))
 		if topic == "" {
@@ -1123,34 +1179,99 @@ func fpubCases(out *wh.Out, rng *wh.Rng, n int) {
 }
 
 // e2e: Publisher -> (scripted transport | GoChannel) -> Forwarder -> scripted destination
+// transports: s scripted, g blocking GoChannel; gr = GoChannel and the Forwarder runs on a Router supplied by the caller
+// (Config.Router).
+type e2eEnv struct {
+	transport, cfgTopic string
+	ack                 bool
+	dst                 *recPub
+	cs                  *chanSub
+	gc                  *gochannel.GoChannel
+	f                   *forwarder.Forwarder
+	done                chan error
+}
+
+func newE2E(transport, cfgTopic string, ack bool) *e2eEnv {
+	e := &e2eEnv{transport: transport, cfgTopic: cfgTopic, ack: ack, dst: &recPub{}, cs: newChanSub(), done: make(chan error, 1)}
+	var sub message.Subscriber = e.cs
+	if transport != "s" {
+		e.gc = gochannel.NewGoChannel(gochannel.Config{BlockPublishUntilSubscriberAck: true}, logger)
+		sub = e.gc
+	}
+	var ownRouter *message.Router
+	if transport == "gr" {
+		var err error
+		if ownRouter, err = message.NewRouter(message.RouterConfig{CloseTimeout: 10 * time.Second}, logger); err != nil {
+			fatal("e2e router", err)
+		}
+	}
+	f, err := forwarder.NewForwarder(sub, e.dst, logger, forwarder.Config{ForwarderTopic: cfgTopic, AckWhenCannotUnwrap: ack, CloseTimeout: 10 * time.Second, Router: ownRouter})
+	if err != nil {
+		fatal("e2e forwarder", err)
+	}
+	e.f = f
+	go func() { e.done <- f.Run(context.Background()) }()
+	select {
+	case <-f.Running():
+	case <-time.After(waitLong):
+		fatal("e2e", errors.New("forwarder did not start"))
+	}
+	return e
+}
+
+func (e *e2eEnv) close() {
+	_ = e.f.Close()
+	select {
+	case <-e.done:
+	case <-time.After(waitLong):
+	}
+	if e.gc != nil {
+		_ = e.gc.Close()
+	}
+}
+
+func (e *e2eEnv) run(topic string, d msgDesc, fail bool) string {
+	if e.transport == "s" {
+		inner := &recPub{}
+		p := forwarder.NewPublisher(inner, forwarder.PublisherConfig{ForwarderTopic: e.cfgTopic})
+		perr := p.Publish(topic, d.build())
+		calls := inner.take()
+		if perr != nil || len(calls) != 1 || len(calls[0].msgs) != 1 {
+			return "F:1 P0 S:-"
+		}
+		w := calls[0].msgs[0]
+		m := message.NewMessage(w.uuid, w.payload)
+		e.dst.reset(m, fail)
+		s := feed(e.cs.ch(calls[0].topic), m)
+		return "F:0 " + renderPubs(e.dst.take(), false) + " S:" + s
+	}
+	e.dst.reset(nil, false)
+	p := forwarder.NewPublisher(e.gc, forwarder.PublisherConfig{ForwarderTopic: e.cfgTopic})
+	ret := make(chan error, 1)
+	go func() { ret <- p.Publish(topic, d.build()) }()
+	select {
+	case perr := <-ret:
+		// a blocking GoChannel publish returns once the forwarder acked the enveloped message
+		return "F:" + bit(perr != nil) + " " + renderPubs(e.dst.take(), false) + " S:ack"
+	case <-time.After(waitLong):
+		stall()
+		return "F:0 " + renderPubs(e.dst.take(), false) + " S:timeout"
+	}
+}
+
+func e2eReq(transport, cfgTopic string, ack bool, topic string, d msgDesc, fail bool) string {
+	return "e2e " + transport + " " + wh.HexS(cfgTopic) + " " + bit(ack) + " " + wh.HexS(topic) + " " + d.fields() + " " + dest(fail)
+}
+
 func e2eCases(out *wh.Out, rng *wh.Rng, n int) {
-	for _, transport := range []string{"s", "g"} {
+	for _, transport := range []string{"s", "g", "gr"} {
 		for _, ack := range []bool{false, true} {
 			cfgTopic := ""
-			if rng.Intn(2) == 0 {
+			// with a supplied Router the forwarder topic is left to its default on both sides in the first environment
+			if rng.Intn(2) == 0 && !(transport == "gr" && !ack) {
 				cfgTopic = "ft-" + rndUtf8(rng, 4)
 			}
-			dst := &recPub{}
-			var sub message.Subscriber
-			var gc *gochannel.GoChannel
-			cs := newChanSub()
-			if transport == "g" {
-				gc = gochannel.NewGoChannel(gochannel.Config{BlockPublishUntilSubscriberAck: true}, logger)
-				sub = gc
-			} else {
-				sub = cs
-			}
-			f, err := forwarder.NewForwarder(sub, dst, logger, forwarder.Config{ForwarderTopic: cfgTopic, AckWhenCannotUnwrap: ack, CloseTimeout: 10 * time.Second})
-			if err != nil {
-				fatal("e2e forwarder", err)
-			}
-			done := make(chan error, 1)
-			go func() { done <- f.Run(context.Background()) }()
-			select {
-			case <-f.Running():
-			case <-time.After(waitLong):
-				fatal("e2e", errors.New("forwarder did not start"))
-			}
+			env := newE2E(transport, cfgTopic, ack)
 			for i := 0; i < n && !isStalled(); i++ {
 				d := rndMsg(rng, rndUtf8)
 				topic := "dst-" + rndUtf8(rng, 5)
@@ -1163,46 +1284,10 @@ func e2eCases(out *wh.Out, rng *wh.Rng, n int) {
 					topic = []string{own, own + " ", "forwarder_topic", strings.ToUpper(own)}[rng.Intn(4)]
 				}
 				fail := transport == "s" && rng.Intn(3) == 0
-				var obs string
-				if transport == "s" {
-					inner := &recPub{}
-					p := forwarder.NewPublisher(inner, forwarder.PublisherConfig{ForwarderTopic: cfgTopic})
-					perr := p.Publish(topic, d.build())
-					calls := inner.take()
-					if perr != nil || len(calls) != 1 || len(calls[0].msgs) != 1 {
-						obs = "F:1 P0 S:-"
-					} else {
-						w := calls[0].msgs[0]
-						m := message.NewMessage(w.uuid, w.payload)
-						dst.reset(m, fail)
-						s := feed(cs.ch(calls[0].topic), m)
-						obs = "F:0 " + renderPubs(dst.take(), false) + " S:" + s
-					}
-				} else {
-					dst.reset(nil, false)
-					p := forwarder.NewPublisher(gc, forwarder.PublisherConfig{ForwarderTopic: cfgTopic})
-					ret := make(chan error, 1)
-					go func() { ret <- p.Publish(topic, d.build()) }()
-					select {
-					case perr := <-ret:
-						// a blocking GoChannel publish returns once the forwarder acked the enveloped message
-						obs = "F:" + bit(perr != nil) + " " + renderPubs(dst.take(), false) + " S:ack"
-					case <-time.After(waitLong):
-						obs = "F:0 " + renderPubs(dst.take(), false) + " S:timeout"
-						stall()
-					}
-				}
-				out.Case("e2e "+transport+" "+wh.HexS(cfgTopic)+" "+bit(ack)+" "+wh.HexS(topic)+" "+d.fields()+" "+dest(fail), obs)
+				out.Case(e2eReq(transport, cfgTopic, ack, topic, d, fail), env.run(topic, d, fail))
 				out.Count("e2e.transport." + transport)
 			}
-			_ = f.Close()
-			select {
-			case <-done:
-			case <-time.After(waitLong):
-			}
-			if gc != nil {
-				_ = gc.Close()
-			}
+			env.close()
 		}
 	}
 }
@@ -1442,12 +1527,24 @@ func replay(out *wh.Out, line string) {
 			}
 			raw = []byte(stdJSON("destination_topic", unhex(e[1]), d, ""))
 		}
-		env, err := newFwd(unhex(f[5]), f[1] == "1")
+		env, err := newFwd(unhex(f[5]), f[1] == "1", false)
 		if err != nil {
 			fatal("forwarder setup", err)
 		}
 		out.Case(line, env.run(raw, f[3] == "fail", wh.NewRng(1)))
 		env.close()
+	case "e2e":
+		env := newE2E(f[1], unhex(f[2]), f[3] == "1")
+		out.Case(line, env.run(unhex(f[4]), parseMsgFields(f[5:8]), f[8] == "fail"))
+		env.close()
+	case "fpubr":
+		var ds []msgDesc
+		if f[4] != "-" {
+			for _, e := range strings.Split(f[4], ";") {
+				ds = append(ds, parseMsgFields(strings.Split(e, "|")))
+			}
+		}
+		out.Case(line, runFpubr(unhex(f[1]), unhex(f[2]), unhex(f[3]), ds, f[5] == "fail", f[6] == "fail"))
 	case "rqp":
 		c := &rqCase{delay: f[1] == "1", cancel: f[2] == "1", fail: f[4] == "fail", msg: parseMsgFields(f[5:8])}
 		pf := strings.Split(f[3], ":")
